@@ -12,7 +12,7 @@ import vlsir.circuit_pb2 as vckt
 # HDL
 from ..prefix import Prefix, Prefixed
 from ..module import Module
-from ..external_module import ExternalModule
+from ..external_module import ExternalModule, SpiceType
 from ..instance import Instance
 from ..signal import Signal, PortDir, Visibility
 from ..slice import Slice
@@ -87,6 +87,7 @@ class ProtoImporter:
             desc=pmod.desc,
             port_list=port_list,
             paramtype=dict,  # FIXME: should these be stored in the serialization schema?
+            spicetype=SpiceType.from_schema(pmod.spicetype),
         )
         # Give it a (non-initializer) value for its `importpath`
         emod._importpath = [pmod.name.domain]
